@@ -23,7 +23,7 @@ const findingImplicitStatus = "C19-capture-implicit-status"
 
 // writeOp is one step of a handler's write history.
 type writeOp struct {
-	Kind string // "header" (WriteHeader), "write", "flush", "copy" (io.Copy into the writer), "error" (http.Error)
+	Kind string // "header" (WriteHeader), "info" (WriteHeader with a 1xx code, before the final one), "write", "flush", "copy" (io.Copy into the writer), "error" (http.Error)
 	Code int
 	N    int
 }
@@ -75,7 +75,11 @@ func historyGen(t *rapid.T) history {
 // explicitCode returns the status the history writes explicitly, 0 if none.
 func (h history) explicitCode() int {
 	if h.Form == "explicit" {
-		return h.Ops[0].Code
+		for _, op := range h.Ops {
+			if op.Kind == "header" || op.Kind == "error" {
+				return op.Code
+			}
+		}
 	}
 	return 0
 }
@@ -99,7 +103,7 @@ var payload = bytes.Repeat([]byte("0123456789abcdef"), 70000/16+1)
 func (h history) play(w http.ResponseWriter) (accepted int) {
 	for _, op := range h.Ops {
 		switch op.Kind {
-		case "header":
+		case "header", "info":
 			w.WriteHeader(op.Code)
 		case "error":
 			// http.Error writes the header then the message through w
@@ -283,6 +287,20 @@ func TestCapture(t *testing.T) {
 		limit := 0
 		if sink == "limited" {
 			limit = rapid.SampledFrom([]int{0, 1, 16, 300, 4096, 40000}).Draw(t, "breakAfter")
+		}
+		// informational responses: net/http lets a handler send 1xx headers
+		// (102 Processing, 103 Early Hints) before the final status; the
+		// status actually written is the final one. Only a real server speaks
+		// that part of the protocol (a recorder takes the first WriteHeader
+		// for the status).
+		if sink == "server" && h.Form == "explicit" && rapid.IntRange(0, 2).Draw(t, "informational") == 0 {
+			n := rapid.IntRange(1, 2).Draw(t, "nInfo")
+			var info []writeOp
+			for i := 0; i < n; i++ {
+				info = append(info, writeOp{Kind: "info", Code: rapid.SampledFrom([]int{102, 103}).Draw(t, "infoCode")})
+			}
+			h.Ops = append(info, h.Ops...)
+			stats.Class("capture:informational-before-final")
 		}
 		withRID := via != "direct" && rapid.Bool().Draw(t, "withRequestID")
 		key := fmt.Sprintf("capture|%+v|%s|%s|%d|%v", h, via, sink, limit, withRID)
